@@ -694,3 +694,69 @@ def run(rep: Report, prog: Program, tier: str) -> None:
         rep.fail(mk_finding(prog, PROP, "C03-MIDS", create_offer, create_offer.node, "createOffer does not allocate the mids of new sections from the set of mids seen so far", construct="mid allocation"))
     if n_assign < 2:
         raise AnalysisError("mid assignment loops not found in setLocalDescription / setRemoteDescription")
+
+    # ---------------------------------------------------------------- C03-STARTED: "start() returned" means "the connection attempt is over"
+    # __connect() starts DTLS right after `await iceTransport.start()`; a follow-up negotiation runs a second __connect() while the first
+    # is still checking, so start() called on a transport whose start is in progress has to wait for it.
+    rep.rule("C03-STARTED", "a transport's start() returns only after the connection attempt (its own or the one in progress) is over; __connect() orders ICE before DTLS before media", min_instances=4)
+    from engine.events import EventsDomain, EvState, call_name
+    ice_start = prog.func("rtcicetransport.RTCIceTransport.start")
+    # the event the running start() sets when it is done
+    set_attrs = {unparse(n.func.value) for n in walk_no_nested(ice_start.node)
+                 if isinstance(n, ast.Call) and isinstance(n.func, ast.Attribute) and n.func.attr == "set" and unparse(n.func.value).startswith("self.")}
+
+    def ev_ice(node, f):
+        if isinstance(node, (ast.Await, ast.Call)):
+            nm = call_name(node)
+            if nm.endswith("_connection.connect"):
+                return ["attempt-over"]
+            if isinstance(node, ast.Await) and nm.endswith(".wait") and nm[: -len(".wait")] in set_attrs:
+                return ["attempt-over"]
+        return []
+    dom_ice = EventsDomain(prog, ev_ice)
+    dom_ice.events_before_raise = True   # a connect() that raised ConnectionError is an attempt that is over, too
+    act = dom_ice.run(ice_start)
+    bad = [getattr(node, "lineno", None) or "end of function" for st, node in act.returns if "attempt-over" not in st.events]
+    if not act.returns:
+        raise AnalysisError("RTCIceTransport.start has no normal exit?")
+    if bad:
+        rep.fail(mk_finding(prog, PROP, "C03-STARTED", ice_start, ice_start.node,
+                            f"RTCIceTransport.start() can return (line {bad}) without having awaited the connectivity checks or the start that is in progress: the second __connect() of a "
+                            "follow-up negotiation then starts DTLS over a transport that has no nominated pair, DTLS fails and the session never connects",
+                            construct="ICE start returns before the attempt is over"))
+    else:
+        rep.ok("C03-STARTED", "RTCIceTransport.start: every normal exit awaited connect() or the event of the start in progress", sample=f"{len(act.returns)} exits; event(s) {sorted(set_attrs)}")
+    connect = prog.func(PC + ".__connect")
+    seen = {"dtls": 0, "media": 0}
+
+    def ev_conn(node, f):
+        if isinstance(node, ast.Await):
+            nm = call_name(node)
+            if nm.endswith("iceTransport.start"):
+                return ["ice-started"]
+            if nm.endswith("dtlsTransport.start"):
+                return ["dtls-started"]
+        if isinstance(node, ast.Assign) and any(unparse(t) in ("iceTransport", "dtlsTransport") for t in node.targets):
+            return ["-ice-started", "-dtls-started"]
+        return []
+
+    def obs_conn(node, st, f):
+        if not isinstance(node, ast.Await):
+            return
+        nm = call_name(node)
+        if nm.endswith("dtlsTransport.start"):
+            seen["dtls"] += 1
+            if "ice-started" not in st.events or not st.has_guard("dtlsTransport.state == 'new'"):
+                rep.fail(mk_finding(prog, PROP, "C03-STARTED", connect, node, "the DTLS handshake is started without `await iceTransport.start(...)` before it on every path, or not under "
+                                    "`dtlsTransport.state == 'new'`", construct="__connect: DTLS start not after ICE start"))
+            else:
+                rep.ok("C03-STARTED", f"__connect line {node.lineno}: DTLS start after ICE start, only when new")
+        elif nm.endswith("sender.send") or nm.endswith("receiver.receive") or nm.endswith("__sctp.start"):
+            seen["media"] += 1
+            if "ice-started" not in st.events or not st.has_guard("dtlsTransport.state == 'connected'"):
+                rep.fail(mk_finding(prog, PROP, "C03-STARTED", connect, node, f"`{nm}` is not under `dtlsTransport.state == 'connected'` after the ICE start", construct=f"__connect: {nm.split('.')[-2]} start unguarded"))
+            else:
+                rep.ok("C03-STARTED", f"__connect line {node.lineno}: {nm} only once DTLS is connected")
+    EventsDomain(prog, ev_conn, obs_conn, kill_guards_on_call=False).run(connect)
+    if seen["dtls"] < 2 or seen["media"] < 3:
+        raise AnalysisError(f"__connect: start sites not recognised {seen}")
